@@ -16,8 +16,8 @@
 From CJ Require Import Base Dbl Heap Forest ForestLemmas CoreDefs CoreRefineDupValue CoreLedgerGen.
 From CJ Require Import TierBridgeDefs TierBridgeOverwriteDefs MergeHeapDefs MergeHeapInv MergeHeapEx
   PatchHeapDefs PatchHeapPath PatchHeapPointer PatchHeapStr PatchHeapSteps PatchHeapDetach
-  PatchHeapApplyDefs PatchHeapOps PatchHeapFinish PatchHeapApply PatchHeapTest PatchHeapEx.
-From CJ Require Tree PointerDefs PatchDefs CompareDefs SortSpec CoreOps.
+  PatchHeapApplyDefs PatchHeapOps PatchHeapFinish PatchHeapApply PatchHeapTest PatchHeapLoop PatchHeapEx.
+From CJ Require Tree PointerDefs PatchDefs CompareDefs SortSpec CoreOps Rfc6902 PatchConform PatchExact PatchSeq2Op PatchSeqAll.
 From CJ.gen Require Import Constants.
 From stdpp Require Import gmap.
 Local Open Scope Z_scope.
@@ -348,3 +348,112 @@ Theorem C16_heap_test_nonvacuous :
     reify (h_str pt_heap) docT = vobj None [vobj (Some [111]) [vnum 2 (Some [97]); vnum 1 (Some [98])]; vnum 5 (Some [110])].
 Proof. exact pt_stage5. Qed.
 Print Assumptions C16_heap_test_nonvacuous.
+
+(** ------------------------------------------------------------------ 6. the entry points and the transfer of C16 *)
+
+(** [vkeyed n]: every member of an object node of the VALUE [n] has a name; [run_ok object ps cs]: along the value-level
+    run over the patch elements [ps], every document and element met is keyed, the model returns [Ok], no status is 6
+    or 8 — a property of the value-level run alone *)
+Theorem C16_heap_vkeyed_is : forall ty vs vi vd k cs,
+  vkeyed (Tree.Node ty vs vi vd k cs) <->
+  (Z.land ty 255 = c_cJSON_Object -> Forall (fun c => is_Some (Tree.n_key c)) cs) /\ Forall vkeyed cs.
+Proof. exact vkeyed_unfold. Qed.
+Theorem C16_heap_run_ok_is : forall object p r cs,
+  run_ok object (p :: r) cs <->
+  vkeyed object /\ vkeyed p /\
+  match PatchDefs.apply_patch object p cs with
+  | Ok (st, o, _) => st <> 6 /\ st <> 8 /\ (st = 0 -> run_ok o r cs)
+  | _ => False
+  end.
+Proof. exact (fun object p r cs => conj (fun H => H) (fun H => H)). Qed.
+
+(** one operation, whatever its opcode (stages 3-5 in one statement): document last root, the patch object at path [ppt]
+    of the root [rb] *)
+Theorem C16_heap_apply_patch_any : forall h A B doc rb ppt pid dpt cpt flag,
+  MInv h (F2 A B [] doc rb) -> subtree_t rb ppt = Some (T pid dpt cpt) ->
+  vkeyed (reify (h_str h) doc) -> vkeyed (reify (h_str h) (T pid dpt cpt)) ->
+  match PatchDefs.apply_patch (reify (h_str h) doc) (reify (h_str h) (T pid dpt cpt)) flag with
+  | Ok (st, _, _) => st <> 6 /\ st <> 8
+  | _ => True
+  end ->
+  match PatchDefs.apply_patch (reify (h_str h) doc) (reify (h_str h) (T pid dpt cpt)) flag with
+  | Ok (st, doc', pt') =>
+      exists h' docT ptT,
+        apply_patch nofail (Some (tid doc)) (Some pid) flag h = Ret (st, h') /\ MInv h' (F2 A B [] docT (put_t rb ppt ptT)) /\
+        tid docT = tid doc /\ tid ptT = pid /\ tid <$> tchildren ptT = tid <$> cpt /\ tdata ptT = dpt /\
+        reify (h_str h') docT = doc' /\ reify (h_str h') ptT = pt' /\
+        (forall t, t ∈ nodes (A ++ rb :: B) -> reify (h_str h') t = reify (h_str h) t) /\ KeepO h h' (A ++ rb :: B) /\
+        (NoLeak h (F2 A B [] doc rb) -> NoLeak h' (F2 A B [] docT (put_t rb ppt ptT))) /\ (h_next h <= h_next h')%positive
+  | _ => True
+  end.
+Proof. exact apply_patch_any. Qed.
+Print Assumptions C16_heap_apply_patch_any.
+
+(** STAGE 6.  [cJSONUtils_ApplyPatches[CaseSensitive](object, patches)]: document = last root, the patch array = the node
+    at path [ppa] of the root [rb].  For a value-level run that is [run_ok], the heap-level loop returns normally with the
+    status the value-level entry point returns (1 for a non-array; else the first non-zero status, or 0), the invariant
+    holds for the forest in which document and patch array are replaced by trees that reify to the value-level results
+    (the patch elements unchanged except that [test] has sorted members), and [NoLeak] is preserved. *)
+Theorem C16_heap_apply_patches : forall h A B doc rb ppa aid da elems flag,
+  MInv h (F2 A B [] doc rb) -> subtree_t rb ppa = Some (T aid da elems) ->
+  (Tree.is_array (reify (h_str h) (T aid da elems)) = true ->
+   run_ok (reify (h_str h) doc) (map (reify (h_str h)) elems) flag) ->
+  match PatchDefs.apply_patches (reify (h_str h) doc) (reify (h_str h) (T aid da elems)) flag with
+  | Ok (st, doc', patches') =>
+      exists h' docT arrT,
+        apply_patches nofail (Some (tid doc)) (Some aid) flag h = Ret (st, h') /\
+        MInv h' (F2 A B [] docT (put_t rb ppa arrT)) /\ tid docT = tid doc /\ tid arrT = aid /\
+        reify (h_str h') docT = doc' /\ reify (h_str h') arrT = patches' /\
+        (NoLeak h (F2 A B [] doc rb) -> NoLeak h' (F2 A B [] docT (put_t rb ppa arrT))) /\ (h_next h <= h_next h')%positive
+  | _ => False
+  end.
+Proof. exact apply_patches_refines. Qed.
+Print Assumptions C16_heap_apply_patches.
+
+(** COROLLARY.  The C16 conformance theorem (Properties_C16.C16_conform) for the heap-level code: under its hypotheses on
+    the REIFIED document and patch array, and [run_ok], the heap-level cJSONUtils_ApplyPatchesCaseSensitive returns 0
+    exactly when the RFC 6902 evaluation succeeds, the document left in the heap is then [doc_same] (hence [doc_eq]) to
+    the RFC's result and well-formed; otherwise the status is non-zero; in both cases the invariant holds and nothing leaks. *)
+Theorem C16_heap_conform : forall h A B doc rb ppa aid da elems ops,
+  MInv h (F2 A B [] doc rb) -> subtree_t rb ppa = Some (T aid da elems) ->
+  let vdoc := reify (h_str h) doc in
+  let vpatches := reify (h_str h) (T aid da elems) in
+  PatchConform.dwf vdoc -> Rfc6902.ops_of vpatches = Some ops -> Forall PatchSeq2Op.op_wf2 (Tree.n_children vpatches) ->
+  Forall PatchSeqAll.op_good ops -> PatchSeqAll.fits vdoc ops ->
+  run_ok vdoc (Tree.n_children vpatches) true ->
+  exists st h' docT arrT,
+    cJSONUtils_ApplyPatchesCaseSensitive nofail (Some (tid doc)) (Some aid) h = Ret (st, h') /\
+    MInv h' (F2 A B [] docT (put_t rb ppa arrT)) /\ tid docT = tid doc /\ tid arrT = aid /\
+    (NoLeak h (F2 A B [] doc rb) -> NoLeak h' (F2 A B [] docT (put_t rb ppa arrT))) /\
+    match Rfc6902.eval vdoc ops with
+    | Some d' => st = 0 /\ PatchExact.doc_same (reify (h_str h') docT) d' /\ Rfc6902.doc_eq (reify (h_str h') docT) d' /\
+                 PatchConform.dwf (reify (h_str h') docT)
+    | None => st <> 0
+    end.
+Proof. exact c16_heap_conform. Qed.
+Print Assumptions C16_heap_conform.
+
+(** non-vacuity: the five-operation example of Properties_C16 (add, test, move, copy, remove on
+    {"a/b":[1,2,{"~k":3}],"c":"x"}) and its failing variant, as heaps: the heap-level entry point run by [vm_compute]
+    returns 0 resp. 1 and leaves the document the value-level model computes; the hypotheses of [C16_heap_conform] hold
+    and give a result document [doc_same] to the RFC 6902 evaluation, with [NoLeak] *)
+Theorem C16_heap_entry_example_runs :
+  out_val py_run = Some 0 /\ out_val py_run_bad = Some 1 /\
+  (match PatchDefs.cJSONUtils_ApplyPatchesCaseSensitive PatchSeqAll.y_doc PatchSeqAll.y_patch with
+   | Ok (st, d, _) => st = 0 /\ out_val (CoreOps.dump_node 50 (Some (tid py_doc)) (out_heap py_run py_heap)) = Some (Some (d, true))
+   | _ => False
+   end) /\
+  (match PatchDefs.cJSONUtils_ApplyPatchesCaseSensitive PatchSeqAll.y_doc PatchSeqAll.y_patch_bad with
+   | Ok (st, d, _) => st = 1 /\ out_val (CoreOps.dump_node 50 (Some (tid py_doc)) (out_heap py_run_bad py_heap)) = Some (Some (d, true))
+   | _ => False
+   end).
+Proof. exact py_runs. Qed.
+Theorem C16_heap_conform_nonvacuous :
+  MInv py_heap py_F /\ NoLeak py_heap py_F /\ run_ok PatchSeqAll.y_doc (Tree.n_children PatchSeqAll.y_patch) true /\
+  exists e h' docT arrT,
+    Rfc6902.eval PatchSeqAll.y_doc PatchSeqAll.y_ops = Some e /\
+    cJSONUtils_ApplyPatchesCaseSensitive nofail (Some (tid py_doc)) (Some (tid py_patches)) py_heap = Ret (0, h') /\
+    MInv h' (F2 [] [py_bad] [] docT (put_t py_patches [] arrT)) /\ NoLeak h' (F2 [] [py_bad] [] docT (put_t py_patches [] arrT)) /\
+    PatchExact.doc_same (reify (h_str h') docT) e.
+Proof. exact py_stage6. Qed.
+Print Assumptions C16_heap_conform_nonvacuous.
